@@ -147,7 +147,8 @@ class MediaList(cssutils.util._NewListBase):
             for item in seq:
                 # filter for doubles?
                 if item.type == 'MediaQuery':
-                    mediaType = item.value.mediaType
+                    # (media types are case-insensitive and may be escaped)
+                    mediaType = normalize(item.value.mediaType)
                     if mediaType:
                         if mediaType == 'all':
                             # remove anthing else and keep all+comments(!) only
@@ -274,7 +275,8 @@ class MediaList(cssutils.util._NewListBase):
         oldMedium = normalize(oldMedium)
 
         for i, mq in enumerate(self):
-            if normalize(mq.value.mediaType) == oldMedium:
+            # (a query which is no simple media type has the type '')
+            if oldMedium and normalize(mq.value.mediaType) == oldMedium:
                 del self[i]
                 break
         else:
